@@ -900,6 +900,9 @@ func c20CLI(c *ev.Ctx) {
 	// every kind of result value, with characters that matter to a formatter
 	hostile := []string{`"50%"`, `"%s %d %v"`, `"100%!"`, `"%"`, `["%s", 3]`, `{"%d": "%%"}`, `sprintf("%d%%", 75)`, `"line1\nline2"`, `"it's"`, `"a - which is 'true'."`, `" value:x"`, `"type:INTEGER"`,
 		`"tab\there"`, `"q\"uote"`, `"狐犬 é"`, `""`, `" "`, `0`, `-1`, `70000`, `1.5`, `-0.0`, `true`, `false`, `null`, `[]`, `[1, "a", [2]]`, `{}`, `{"a": {"b": [1]}}`, `/re%s/`, `1 == 1`, `Doc`, `Doc.pct`, `Missing`,
+		// literals holding raw line ends and other bytes an editor or a transfer might "normalise"
+		"\"one\r\ntwo\"", "len(\"one\r\ntwo\")", "'a\r\nb' == \"a\\r\\nb\"", "\"no\\\r\njoin\"", "\"a\r\nb\" ~= /a\r\nb/", "len(\"lone\rcr\")", "\"lf\nonly\"", "\"tab\tin\"", "len(\"nbsp\u00a0 \")",
+		"len(\"\ufeffbom\")", "1 +\r\n 2", "\"trail \"   \r\n", "len(\"\r\n\r\n\")", "len('\n\r')", "len(\" \t \")", "replace(\"a\r\nb\", /\r\n/, \"-\")", "split(\"a\r\nb\", \"\r\n\")", "\"é\u0301 \u2028 \ufffd\"",
 		`[1, /a/]`, `{"pat": /eve$/i}`, `[[1, [/x/i]], "y"]`, `[null, [null]]`, `{1: {2.5: [true, null]}}`, `[1.5, -2, "x", /y/, true, null, [], {}]`}
 	for hi, hv := range hostile {
 		for fi, flags := range [][]string{{}, {"-no-optimizer"}, {"-timeout", "10s"}} {
